@@ -1,7 +1,7 @@
 (** C01 over the Go source: the theorems of C01.v restated for the definition that tools/gen_model
     translates from hotp.go / derive_rfc4226.go / derive.go / decoder.go on every run (Generated/Src.v). *)
 From Coq Require Import String.
-From OtpV Require Import Prelude Sha GoSem Decoder Derive Otp Rfc4226 Errors Src SrcLift SrcEqOtp SrcTop C01.
+From OtpV Require Import Prelude Sha GoSem Decoder Derive Otp Rfc4226 Errors Src SrcLift SrcTop SrcEqDecode SrcEqValidate SrcEqHotp C01.
 Open Scope N_scope.
 
 Theorem C01src_value : forall fuel junk secret key c d per sk a,
